@@ -486,7 +486,7 @@ func (i info) Name() string {
 	return i.n.Path
 }
 func (i info) Size() int64 {
-	if i.n.Kind == 'l' && i.lstat {
+	if (i.n.Kind == 'l' || i.n.Kind == 'L') && i.lstat {
 		return 1
 	}
 	return int64(i.n.Size)
@@ -500,13 +500,18 @@ func (i info) Mode() fs.FileMode {
 			return 0o644
 		}
 		return fs.ModeSymlink | 0o777
+	case 'L': // a symlink whose target is a directory: the listing shows the link, fs.Stat and an opened handle show a directory
+		if !i.lstat {
+			return fs.ModeDir | 0o755
+		}
+		return fs.ModeSymlink | 0o777
 	case 's':
 		return fs.ModeNamedPipe | 0o644
 	}
 	return 0o644
 }
 func (i info) ModTime() time.Time         { return time.Time{} }
-func (i info) IsDir() bool                { return i.n.Kind == 'd' }
+func (i info) IsDir() bool                { return i.n.Kind == 'd' || (i.n.Kind == 'L' && !i.lstat) }
 func (i info) Sys() any                   { return nil }
 func (i info) Type() fs.FileMode          { return i.Mode().Type() }
 func (i info) Info() (fs.FileInfo, error) { return i, nil }
@@ -526,7 +531,7 @@ func (f *file) Stat() (fs.FileInfo, error) {
 	return info{f.n, false}, nil
 }
 func (f *file) Read(p []byte) (int, error) {
-	if f.n.Kind == 'd' {
+	if f.n.Kind == 'd' || f.n.Kind == 'L' {
 		return 0, &fs.PathError{Op: "read", Path: f.n.Path, Err: errors.New("is a directory")}
 	}
 	if f.off >= len(f.data) {
